@@ -335,8 +335,50 @@ class Effects:
                             self._is_data(recv, self._data_names(f)):
                         out.append(Site(f, x, "UnicodeEncodeError", "implicit", "value",
                                         ast.unparse(x)[:80], stmt_of(x)))
+        # `value in <set / frozenset / dict>` hashes the value: TypeError for a list, dict or
+        # bytearray -- an implicit, value-triggered exception
+        for x in walk_no_nested(f.node):
+            if not (isinstance(x, ast.Compare) and len(x.ops) == 1 and isinstance(
+                    x.ops[0], (ast.In, ast.NotIn))):
+                continue
+            c = x.comparators[0]
+            # the keys of a dict are hashable: `for k in d: if k in names`
+            if isinstance(x.left, ast.Name) and any(
+                    isinstance(l_, ast.For) and isinstance(l_.target, ast.Name) and
+                    l_.target.id == x.left.id and isinstance(l_.iter, ast.Name) and any(
+                        isinstance(i_, ast.Call) and call_name(i_) == "isinstance" and
+                        len(i_.args) == 2 and ast.unparse(i_.args[0]) == l_.iter.id and
+                        "dict" in ast.unparse(i_.args[1]) for i_ in walk_no_nested(f.node))
+                    for l_ in walk_no_nested(f.node)):
+                continue
+            if self._hashing_container(f, c) and self._is_data(x.left, self._data_names(f)):
+                out.append(Site(f, x, "TypeError", "implicit", "value",
+                                ast.unparse(x)[:80], stmt_of(x)))
         self._own[f.key] = out
         return out
+
+    def _hashing_container(self, f: FuncInfo, c: ast.AST) -> bool:
+        def ctor(v: ast.AST) -> bool:
+            return isinstance(v, (ast.Set, ast.SetComp, ast.Dict, ast.DictComp)) or (
+                isinstance(v, ast.Call) and call_name(v) in ("set", "frozenset", "dict"))
+        if ctor(c):
+            return True
+        if isinstance(c, ast.Attribute) and isinstance(c.value, ast.Name) and \
+                c.value.id == "self" and f.cls is not None:
+            for k in self.prog.mro(f.cls):
+                for m in k.methods.values():
+                    for st in walk_no_nested(m.node):
+                        if isinstance(st, (ast.Assign, ast.AnnAssign)) and getattr(
+                                st, "value", None) is not None:
+                            t = st.targets[0] if isinstance(st, ast.Assign) else st.target
+                            if ast.unparse(t) == ast.unparse(c) and ctor(st.value):
+                                return True
+        if isinstance(c, ast.Name):
+            for st in walk_no_nested(f.node):
+                if isinstance(st, ast.Assign) and isinstance(st.targets[0], ast.Name) and \
+                        st.targets[0].id == c.id and ctor(st.value):
+                    return True
+        return False
 
     # ------------------------------------------------------------ handlers
     def _handlers_around(self, f: FuncInfo, node: ast.AST) -> List[List[str]]:
